@@ -74,7 +74,8 @@ def h2_session(rng, rare=False):
         sid += 2
     for _ in range(rng.choice([1, 2, 4])):
         kind = rng.choice(["get", "post", "connect-nopath", "nonascii-path", "priority-first", "rst", "window-closed", "data-after-end",
-                           "padded", "trailers", "continuation", "websocket", "priority-closed"]) if rare else rng.choice(["get", "post"])
+                           "padded", "trailers", "continuation", "websocket", "priority-closed", "nonascii-method",
+                           "nonascii-header"]) if rare else rng.choice(["get", "post"])
         try:
             if kind == "get":
                 c.send_headers(sid, [(b":method", b"GET"), (b":path", b"/x?y=1"), (b":scheme", b"https"), (b":authority", b"a")],
@@ -87,6 +88,12 @@ def h2_session(rng, rare=False):
             elif kind == "nonascii-path":
                 c.send_headers(sid, [(b":method", b"GET"), (b":path", b"/\xc3\xa9"), (b":scheme", b"https"), (b":authority", b"a")],
                                end_stream=True)
+            elif kind == "nonascii-method":
+                c.send_headers(sid, [(b":method", b"G\xc3\x89T"), (b":path", b"/m"), (b":scheme", b"https"), (b":authority", b"a")],
+                               end_stream=True)
+            elif kind == "nonascii-header":
+                c.send_headers(sid, [(b":method", b"GET"), (b":path", b"/h"), (b":scheme", b"https"), (b":authority", b"\xc3\xa9.example"),
+                                     (b"x-v", b"caf\xc3\xa9")], end_stream=True)
             elif kind == "priority-first":
                 c.prioritize(sid, weight=rng.choice([1, 200]), depends_on=rng.choice([0, 1]), exclusive=rng.random() < 0.5)
                 c.send_headers(sid, base, end_stream=True)
@@ -134,6 +141,15 @@ def h2_session(rng, rare=False):
             pass
         out.append(c.data_to_send())
         sid += 2
+    if rare and rng.random() < 0.25:
+        # the client says goodbye in the same breath: whatever the server still wanted to answer on the streams above
+        # meets a connection that h2 already regards as closed
+        try:
+            c.close_connection()
+            out.append(c.data_to_send())
+            victim = None          # nothing is owed to anybody any more
+        except Exception:  # noqa: BLE001
+            pass
     return b"".join(out), victim
 
 
